@@ -29,6 +29,9 @@ TrRet == /\ IsEvent("iret") /\ Consume /\ cur.op = Ev.op
          /\ cur' = NoCall /\ nint' = 0
 (* a helper thread gives a unit back (semaphore release / segment unlock) while the thread under test is blocked *)
 TrBgRelease == IsEvent("bgrelease") /\ Consume /\ units' = units + 1 /\ UNCHANGED <<cur, nint>>
-TNext == TrSetUnits \/ TrCall \/ TrSys \/ TrRet \/ TrBgRelease
+(* a handler that ran during an interrupted close opened a descriptor (it gets the number the interrupted close released): the library *)
+(* call that was interrupted must leave that descriptor alone - an interrupted close is complete and is not issued again               *)
+TrHandlerFd == IsEvent("hfd") /\ Consume /\ cur = NoCall /\ Ev.ok = 1 /\ UNCHANGED <<cur, nint, units>>
+TNext == TrSetUnits \/ TrCall \/ TrSys \/ TrRet \/ TrBgRelease \/ TrHandlerFd
 TSpec == TInit /\ [][TNext]_tv
 ====
